@@ -52,7 +52,7 @@ caught = {}
 lr = os.path.join(root, 'selftest', 'last_run.txt')
 if os.path.exists(lr):
     for l in open(lr):
-        m = re.match(r'(CAUGHT|MISSED) (C\d+(?:-r2)?)[: ]*(.*)', l)
+        m = re.match(r'(CAUGHT|MISSED) (C\d+(?:-r\d)?)[: ]*(.*)', l)
         if m:
             caught[m.group(2)] = (m.group(1), m.group(3).strip())
 rows = ["| property | seeded change (files) | needs | reported by |", "|---|---|---|---|"]
